@@ -840,6 +840,26 @@ def analyse(ctx, bodies, rule_prefix, extra_rules=(), table=None, skip=None, inc
                     oks.append(r if twin else None)
                 if oks and all(oks):
                     reason = "guarded in every caller (%d): %s" % (len(oks), oks[0])
+            if not reason and not callers:
+                # a closure (or helper) that reaches its users only through std combinators (`poll.map(|r| r.unwrap())` inside a helper):
+                # every function of the region into which the inliner wrote this body out provides a context
+                oks = []
+                for cb in bodies:
+                    if cb is b:
+                        continue
+                    ib = F.inlined(cb)
+                    if ib is cb or not any(bl.get("origin") == b.path for bl in ib.blocks):
+                        continue
+                    twin = [x for x in enumerate_sites(ib, include_alloc=include_alloc, narrowing=narrowing) if x.origin == b.path and x.what == s.what and x.ordinal == s.ordinal]
+                    r = None
+                    for x in twin:
+                        r = try_rules(x, ib)
+                        if not r:
+                            break
+                    if twin:
+                        oks.append(r)
+                if oks and all(oks):
+                    reason = "guarded wherever it is written out (%d function(s)): %s" % (len(oks), oks[0])
             if not reason and not getattr(b, "inlined", False):
                 # the guard and the use may go through small local helpers (a validated-length newtype's accessors): retry the same
                 # site with the helpers this function calls written out
